@@ -130,7 +130,10 @@ Definition pstep (ws : Z) (p : pstate) (o : op) (x : obs) : option pstate :=
       | (k', _) :: q' =>
           if psync p && kind_eqb k k' then Some (mkP q' false n (fail p 3))
           else Some (mkP (pq p) false n (pv p))
-      | [] => Some (mkP [] false n (pv p))
+      | [] =>
+          (* a read of an EMPTY buffer fails and changes nothing (polling for data): the history
+             goes on in step with the reference *)
+          if psync p then Some (mkP [] true n (ok_if p (n =? 0) 3)) else Some (mkP [] false n (pv p))
       end
   (* a peek of ANY kind at ANY time returns what a read of that kind would return now: the
      decoding of the current unread bytes (when at least the width is there; with less a panic
